@@ -245,6 +245,9 @@ def main(argv=None):
         for u, why in gaps[:40]:
             print("ENGINE-GAP %s: %s" % (u, why[:300]))
 
+    if a.v:
+        for (mod, uname), r in sorted(zip(jobs, results), key=lambda z: -z[1].seconds)[:8]:
+            print("SLOW %-70s %.1fs solver=%.1fs paths=%d feas=%d obligations=%d" % (uname, r.seconds, r.solver_seconds, r.paths, r.feas_calls, len(r.obligations)))
     wall = time.time() - t0
     level = spec["level"]
     cov = {
